@@ -115,6 +115,8 @@ def run():
                     o["alloc"][c] = bump(o["alloc"][c]); return True
                 if clause == "stamp" and o["op"] == "quote" and i > 12:
                     o["t"] = o["t"] + 10 ** 6; return True
+                if clause == "spurious" and o["op"] == "step" and i > 12:
+                    ops.insert(i + 1, {"op": "abort", "out": "error", "error": "(inserted)"}); return True
                 if o["op"] == "step" and i > 12:
                     if clause == "reward":
                         o["reward"] = bump(o["reward"]); return True
@@ -125,7 +127,7 @@ def run():
         return False
     for clause, named in (("nlv", "nlv"), ("pos", "pos"), ("mrg", "mrg"), ("cash", "cash"), ("trades", "trades"), ("ctxpre", "ctx"),
                           ("ctxpost", "ctx"), ("fifo", "fifo"), ("stamp", "stamp"), ("reward", "reward"), ("entries", "entries"),
-                          ("done", "done")):
+                          ("done", "done"), ("spurious", "spurious")):
         bad = json.loads(json.dumps(base, default=str))
         for t, b in zip(bad, base):
             t["cfg"] = b["cfg"]
